@@ -85,13 +85,13 @@ func specWritesOK() bool {
 // (any value of the request type, any error).
 //@ func (*Server).ChargingdataPost [C11]
 //@   entry
-//@   requires cgf.SpecReady()
+//@   requires cgf.SpecReady() && processor.SpecSeqOK()
 //@   requires s != nil && s.ServerChf != nil && c != nil && specWritesOK()
 //@   ensures specAnswers() == old(specAnswers())+1
 //@   ensures ghostHttpWrites == old(ghostHttpWrites)+1 ==> (ghostHttpStatus == 400 || ghostHttpStatus == 500) && ghostHttpBody
 //@ func (*Server).ChargingdataChargingDataRefUpdatePost [C11]
 //@   entry
-//@   requires cgf.SpecReady()
+//@   requires cgf.SpecReady() && processor.SpecSeqOK()
 //@   requires s != nil && s.ServerChf != nil && c != nil && specWritesOK()
 //@   requires [C20] specEnvOK()
 //@   ensures specAnswers() == old(specAnswers())+1
